@@ -581,3 +581,37 @@ Proof.
     + destruct (Gen d1 d2 d0 P1 P2 P0) as (lv & n & E & Wf & U).
       exists d1, d2, d0, lv, n. split; [auto|]. split; [exact E|]. rewrite E. cbn [bind]. auto.
 Qed.
+
+(** * 9. statements used verbatim by Props/C05.v *)
+
+Lemma overview_first_writer mm (stream : list obs) start n1 n2 o1 o2 :
+  map tile_of stream = writer_order mm ->
+  Forall (fun o => 0 <= size_of o) stream ->
+  nth_error stream n1 = Some o1 -> nth_error stream n2 = Some o2 ->
+  1 <= lvl (tile_of o1) -> lvl (tile_of o2) = 0 ->
+  start + presum (map size_of stream) n1 + size_of o1 <= start + presum (map size_of stream) n2.
+Proof.
+  intros Hw Hs E1 E2 L1 L2.
+  destruct (writer_order_split mm) as (ovr & full & Hsplit & Hovr & Hfull).
+  rewrite Hsplit in Hw.
+  assert (I1 : In (tile_of o1) (ovr ++ full)) by (rewrite <- Hw; apply in_map; eapply nth_error_In; eauto).
+  assert (I2 : In (tile_of o2) (ovr ++ full)) by (rewrite <- Hw; apply in_map; eapply nth_error_In; eauto).
+  apply in_app_or in I1. apply in_app_or in I2.
+  assert (N1 : ~ In (tile_of o1) full) by (intros X; apply Hfull in X; lia).
+  assert (N2 : ~ In (tile_of o2) ovr) by (intros X; apply Hovr in X; lia).
+  eapply overview_first_offsets; eauto; tauto.
+Qed.
+
+Lemma tile_bytes_in_file_eq {A} (f : obs -> list A) (hdr file : list A) (stream : list obs) :
+  (forall o, In o stream -> size_of o = len (f o)) ->
+  file = hdr ++ concat (map f stream) ->
+  forall n o, nth_error stream n = Some o ->
+    let off := len hdr + presum (map size_of stream) n in
+    sel file off (off + size_of o) = f o.
+Proof. intros Hsz -> n o E. exact (tile_bytes_in_file f hdr stream n o Hsz E). Qed.
+
+Lemma tidx_enumerates_once m : NoDup (tidx m) /\ forall idx, In idx (tidx m) <-> in_range m idx.
+Proof. split; [exact (NoDup_tidx m) | exact (in_tidx m)]. Qed.
+
+Lemma cog_tidx_enumerates_once mm : NoDup (cog_tidx mm) /\ forall t, In t (cog_tidx mm) <-> valid_tile mm t.
+Proof. split; [exact (NoDup_cog_tidx mm) | exact (in_cog_tidx mm)]. Qed.
